@@ -1,4 +1,113 @@
-(* placeholder until theory/VITheory.v lands *)
-From MSDM Require Import theory.Bellman.
-Theorem c01_placeholder : True. Proof. exact I. Qed.
-Print Assumptions c01_placeholder.
+(* C01 — Value iteration and policy iteration return optimal values and policies.
+   Every theorem below is about an arbitrary finite MDP (any nS, nA) given by rational arrays, the
+   planner result (V, Q, Pi, iv) given as rationals, and the hypothesis that the certificate checker
+   of model/VI.v — evaluated on exactly that data, which is what the check does with vm_compute on
+   msdm's output — returned all-true.  mR/oR are the real-valued MDP and result they denote.
+   Discounted case (gamma < 1).  "Optimal value" = any fixed point Vs of the optimality operator of the
+   MDP with absorbing states masked; optimal_value_unique shows there is at most one. *)
+From Coq Require Import QArith Qreals Reals List Bool.
+From MSDM Require Import base.Num base.NumInst model.MDP model.VI theory.Bellman theory.VITheory
+     theory.VITransfer theory.VIMain theory.VIExample.
+Local Open Scope R_scope.
+
+Theorem C01_values :
+  forall nS nA P Rw av ab ini g V Qv Pi iv tl,
+  @c01_check Q NumQ (mk_mdp nS nA P Rw av ab ini g) (mk_out V Qv Pi iv) tl = all_true ->
+  forall Vs, Q2R g < 1 -> 0 <= Q2R (epsb tl) -> fixpoint (mR nS nA P Rw av ab ini g) Vs ->
+  forall s, (s < nS)%nat ->
+    Rabs (oV (oR V Qv Pi iv) s - Vs s) <= Q2R (epsb tl) / (1 - Q2R g).
+Proof. exact main_values. Qed.
+Print Assumptions C01_values.
+
+Theorem C01_optimal_value_unique :
+  forall (m : mdp R) V1 V2, wf m -> gamma m < 1 -> fixpoint m V1 -> fixpoint m V2 ->
+  forall s, (s < nS m)%nat -> V1 s = V2 s.
+Proof. exact optimal_value_unique. Qed.
+Print Assumptions C01_optimal_value_unique.
+
+Theorem C01_absorbing_zero :
+  forall nS nA P Rw av ab ini g V Qv Pi iv tl,
+  @c01_check Q NumQ (mk_mdp nS nA P Rw av ab ini g) (mk_out V Qv Pi iv) tl = all_true ->
+  forall s a, (s < nS)%nat -> (a < nA)%nat -> absorbing (mR nS nA P Rw av ab ini g) s = true ->
+    oV (oR V Qv Pi iv) s = 0 /\
+    (avail (mR nS nA P Rw av ab ini g) s a = true -> oQ (oR V Qv Pi iv) s a = Some 0).
+Proof. exact main_absorbing_zero. Qed.
+Print Assumptions C01_absorbing_zero.
+
+Theorem C01_placeholder :
+  forall nS nA P Rw av ab ini g V Qv Pi iv tl,
+  @c01_check Q NumQ (mk_mdp nS nA P Rw av ab ini g) (mk_out V Qv Pi iv) tl = all_true ->
+  forall s, (s < nS)%nat -> unable_to_reach (mR nS nA P Rw av ab ini g) s = true ->
+    oV (oR V Qv Pi iv) s = Q2R (undef tl).
+Proof. exact main_placeholder. Qed.
+Print Assumptions C01_placeholder.
+
+(* the policy only plays available actions whose TRUE optimal action value is within eta of optimal *)
+Theorem C01_policy_support :
+  forall nS nA P Rw av ab ini g V Qv Pi iv tl,
+  @c01_check Q NumQ (mk_mdp nS nA P Rw av ab ini g) (mk_out V Qv Pi iv) tl = all_true ->
+  forall Vs s a, Q2R g < 1 -> 0 <= Q2R (epsb tl) -> fixpoint (mR nS nA P Rw av ab ini g) Vs ->
+  (s < nS)%nat -> (a < nA)%nat -> masked (mR nS nA P Rw av ab ini g) s = false ->
+  0 < oPi (oR V Qv Pi iv) s a ->
+  exists mx, maxQ (mR nS nA P Rw av ab ini g) (oR V Qv Pi iv) s = Some mx /\
+             avail (mR nS nA P Rw av ab ini g) s a = true /\
+             Vs s - eta (mR nS nA P Rw av ab ini g) (tR tl) mx
+               <= Qval (mR nS nA P Rw av ab ini g) Vs s a.
+Proof. exact main_support. Qed.
+Print Assumptions C01_policy_support.
+
+(* ties are shared, and the support is played uniformly *)
+Theorem C01_ties_shared :
+  forall nS nA P Rw av ab ini g V Qv Pi iv tl,
+  @c01_check Q NumQ (mk_mdp nS nA P Rw av ab ini g) (mk_out V Qv Pi iv) tl = all_true ->
+  forall s a mx, (s < nS)%nat -> (a < nA)%nat -> masked (mR nS nA P Rw av ab ini g) s = false ->
+  maxQ (mR nS nA P Rw av ab ini g) (oR V Qv Pi iv) s = Some mx ->
+  avail (mR nS nA P Rw av ab ini g) s a = true ->
+  mx - band_lo (tR tl) mx <= Qfin (oR V Qv Pi iv) s a -> 0 < oPi (oR V Qv Pi iv) s a.
+Proof. exact main_ties_shared. Qed.
+Print Assumptions C01_ties_shared.
+
+Theorem C01_policy_uniform :
+  forall nS nA P Rw av ab ini g V Qv Pi iv tl,
+  @c01_check Q NumQ (mk_mdp nS nA P Rw av ab ini g) (mk_out V Qv Pi iv) tl = all_true ->
+  forall s a, (s < nS)%nat -> (a < nA)%nat -> masked (mR nS nA P Rw av ab ini g) s = false ->
+  (0 < oPi (oR V Qv Pi iv) s a ->
+     Rabs (oPi (oR V Qv Pi iv) s a * INR (suppcount (mR nS nA P Rw av ab ini g) (oR V Qv Pi iv) s) - 1)
+       <= Q2R (ptol tl)) /\
+  (~ 0 < oPi (oR V Qv Pi iv) s a -> oPi (oR V Qv Pi iv) s a = 0).
+Proof. exact main_uniform. Qed.
+Print Assumptions C01_policy_uniform.
+
+(* the exactly evaluated return of the reported policy (uniform on its support) is near-optimal *)
+Theorem C01_policy_return :
+  forall nS nA P Rw av ab ini g V Qv Pi iv tl,
+  @c01_check Q NumQ (mk_mdp nS nA P Rw av ab ini g) (mk_out V Qv Pi iv) tl = all_true ->
+  forall Vs Vpi B, Q2R g < 1 -> 0 <= Q2R (epsb tl) -> 0 <= Q2R (qtol tl) ->
+  0 <= Q2R (atol_lo tl) -> 0 <= Q2R (rtol_lo tl) ->
+  fixpoint (mR nS nA P Rw av ab ini g) Vs ->
+  fixpol (mR nS nA P Rw av ab ini g) (upol (mR nS nA P Rw av ab ini g) (oR V Qv Pi iv)) Vpi ->
+  0 <= B ->
+  (forall s mx, (s < nS)%nat -> maxQ (mR nS nA P Rw av ab ini g) (oR V Qv Pi iv) s = Some mx ->
+                band_hi (tR tl) mx <= B) ->
+  forall s, (s < nS)%nat ->
+    Rabs (Vpi s - Vs s) <=
+    (B + 2 * Q2R (qtol tl) + 2 * (Q2R g * (Q2R (epsb tl) / (1 - Q2R g)))) / (1 - Q2R g).
+Proof. exact main_policy_return. Qed.
+Print Assumptions C01_policy_return.
+
+Theorem C01_initial_value :
+  forall nS nA P Rw av ab ini g V Qv Pi iv tl,
+  @c01_check Q NumQ (mk_mdp nS nA P Rw av ab ini g) (mk_out V Qv Pi iv) tl = all_true ->
+  Rabs (oInit (oR V Qv Pi iv)
+        - sumf nS (fun s => init (mR nS nA P Rw av ab ini g) s * oV (oR V Qv Pi iv) s))
+    <= Q2R (itol tl).
+Proof. exact main_initial_value. Qed.
+Print Assumptions C01_initial_value.
+
+(* non-vacuity: the hypotheses are met by a concrete stochastic MDP and an optimum exists there *)
+Theorem C01_nonvacuous :
+  @c01_check Q NumQ (mk_mdp 3 2 exP exR exAv exAb exIni (1#2)%Q)
+             (mk_out exV exQ exPi ((3#2) + (1#2000000))%Q) exT = all_true /\
+  fixpoint (mR 3 2 exP exR exAv exAb exIni (1#2)%Q) (untab (map Q2R exVs)).
+Proof. exact (conj ex_check ex_fix). Qed.
+Print Assumptions C01_nonvacuous.
